@@ -65,7 +65,7 @@ _core_prop("C04", "Every appended entry dominates the log it was appended to",
     "Kernel-checked for every reachable log, writer and pointer count (any integer): next = the heads (list: reversed sorted heads), clock id = the log's writer key, clock time strictly above every entry incl. merged ones, the entry becomes the single head, skip references are distinct entries of the log and not predecessors, every entry of the log is in the new entry's causal past, and there are at most floor(log2(max pc 1))+1 skip references (refs_logarithmic). The conc stream adds controlled interleavings of appends with merges and identity changes on the same log: every appended entry is compared with the model's (next, refs, clock), and its clock id must be the key of the identity in force when the append held the lock.",
     CORE_NOTE, extra_streams=[dict(name="conc", quick=["-n", "250"], thorough=["-n", "3000", "-thorough"], shards_quick=4, shards_thorough=14)])
 _core_prop("C05", "The log is append-only: entries never change or vanish",
-    r"(join|append|setid|exchange)/(entries|len|values|snapshot\.values)",
+    r"(join|append|setid|exchange|load:.*|iter)/(entries|len|values|snapshot\.values|has|get)",
     "Lean 4: monotonicity of every step of the system model (step_mono), sorted-sublist lemma (values_sublist); known finding lww-tie-order proved as a concrete counterexample",
     "Kernel-checked: every operation keeps every entry of every replica retrievable by hash with identical content, never decreases the count, changes only the target replica, and the new Values() contains the old one as a subsequence whenever the ordering is a strict total order on the new entries (values_subsequence_partial). Without that premise the claim is FALSE for the default ordering (two entries of one writer with equal clock time): proved by a concrete model counterexample and reproduced on the implementation — recorded as known finding lww-tie-order. Pointer aliasing between instances cannot occur in the model (immutable values); entry immutability is checked by the harness on hashes.",
     CORE_NOTE)
